@@ -401,20 +401,18 @@ func TestVerif_XNP_EndToEnd(t *testing.T) {
 	}
 	var list []sc
 	for i := 0; i < rounds; i++ {
-		i := i
 		list = append(list,
 			sc{"basic-recognized", func(rnd *rand.Rand) *xnpRun { return xnpBasic(t, rnd, true) }},
 			sc{"basic-unrecognized", func(rnd *rand.Rand) *xnpRun { return xnpBasic(t, rnd, false) }},
 			sc{"revocation", func(rnd *rand.Rand) *xnpRun { return xnpRevocation(t, rnd, false) }},
 			sc{"negcache", func(rnd *rand.Rand) *xnpRun { return xnpNegCache(t, rnd) }},
 			sc{"relay", func(rnd *rand.Rand) *xnpRun { return xnpRelay(t, rnd) }},
-			sc{fmt.Sprintf("tamper-%d", i%3), func(rnd *rand.Rand) *xnpRun { return xnpTamper(t, rnd, i) }},
+			sc{"tamper-protocol", func(rnd *rand.Rand) *xnpRun { return xnpTamper(t, rnd, 0) }},
+			sc{"tamper-challenge", func(rnd *rand.Rand) *xnpRun { return xnpTamper(t, rnd, 1) }},
+			sc{"tamper-identity", func(rnd *rand.Rand) *xnpRun { return xnpTamper(t, rnd, 2) }},
 			sc{"reconnect", func(rnd *rand.Rand) *xnpRun { return xnpReconnect(t, rnd) }},
 		)
 		if kit.Thorough() {
-			list = append(list,
-				sc{fmt.Sprintf("tamper-%d", (i+1)%3), func(rnd *rand.Rand) *xnpRun { return xnpTamper(t, rnd, i+1) }},
-				sc{fmt.Sprintf("tamper-%d", (i+2)%3), func(rnd *rand.Rand) *xnpRun { return xnpTamper(t, rnd, i+2) }})
 			if i%3 == 0 {
 				list = append(list, sc{"revocation-expiry", func(rnd *rand.Rand) *xnpRun { return xnpRevocation(t, rnd, true) }})
 			}
